@@ -1,7 +1,8 @@
 """C17 — amount conversion is exact to the smallest unit (values.py, Output / add_output / raw)."""
+import hashlib, json, os
 from fractions import Fraction
 from decimal import Decimal, ROUND_HALF_EVEN, localcontext
-from core import Case
+from core import Case, RUN, load_known
 
 PROP = 'C17'
 COQ_FILES = ['Extract/C17.v', 'Properties/C17.v']
@@ -19,6 +20,7 @@ ALLOWED_AXIOMS = [
     'PrimFloat.float', 'PrimInt63.int', 'PrimInt63.eqb', 'PrimInt63.land', 'PrimInt63.lor', 'PrimInt63.lsl',
     'PrimInt63.lsr', 'PrimInt63.sub',
     'abs', 'div', 'eqb', 'frshiftexp', 'ldshiftexp', 'leb', 'ltb', 'mul', 'normfr_mantissa', 'of_uint63', 'opp',
+    'add', 'sub',       # primitive float addition / subtraction (Value.__add__ / __sub__ in the session theorems)
 ]
 ASSUMPTIONS = [
     'theorems are about coq/Model/Amount.v + coq/Float/{B64,DecRound}.v: values.py and the value handling of '
@@ -34,13 +36,34 @@ ASSUMPTIONS = [
     'algorithms of DecRound.v and validated bit for bit every run), math.log10 in Value.str (modelled as the '
     'correctly rounded logarithm near powers of ten; exhaustively compared over every denominator x network), '
     'str.split / str.upper outside ASCII + micro sign, float() grammar extensions (underscores, non-ASCII digits)',
-    'currency_repr other than code, Value.__floordiv__/__round__/__float__ and comparison operators are not modelled',
+    'currency_repr other than code, Value.__floordiv__/__round__ and comparison operators are not modelled',
+    'sessions: the model of a sequence of conversions is the list of the stand-alone answers (Model/AmountSession.v); every '
+    'session request is answered by the adapter in a forked child of the freshly started process, so what is compared is '
+    '"state left behind by earlier calls of the same session"; state that needs more calls than a session has (<= 40) or '
+    'another interpreter thread is not reached',
+    'transaction sessions (Model/AmountTx.v) reuse the C07 fee-bump model (Model/BumpFee.v: bump_amounts, bump_loop); the '
+    'vsize of the (re-)signed transaction is an input of the model, reported by the adapter before/after every operation '
+    'and validated by the oracle against the weight of the bytes raw() returned; scripts, signatures and txid are not '
+    'amounts and are not modelled here (C01/C02/C06); estimate_size() results are checked by the oracle only (modelled in '
+    'C07); wallet-level operations (wtx requests: transaction_create change splitting, WalletTransaction.bumpfee) are '
+    'checked by the independent oracle only, their model is C07',
+    'output values in 2^63 .. 2^64-1 are counted as serialisable (as in outputs_are_integers); MAX_MONEY is not enforced by '
+    'the library and not asked for by the property',
 ]
 RULE = ('amounts 0..21e14: boundary stream (powers of two and ten +-3, top of the range, binade edges of n/1e8), '
         'seeded uniform/log-uniform stream; every amount is written exactly in each denominator symbol x currency '
         'code x network and sent through Value(str), value_to_satoshi, from_satoshi().str(), format->parse, Output, '
         'add_output/raw; malformed stream of mutated strings; Python float()/round()/% validated on seeded hard cases '
-        '(halfway points); floats compared as float.hex() text; non-trivial = implementation returned a value')
+        '(halfway points); floats compared as float.hex() text; non-trivial = implementation returned a value; '
+        'SESSIONS (one process / one object each, emitted first): seq = 2..40 conversions in a row (every ordered pair of '
+        'denominator symbols, units differing only in letter case in both orders, one symbol under every currency, '
+        'format->parse with every denominator forwards and backwards, long mixed sessions with malformed strings and '
+        'repeats), vobj = one Value object observed and combined with + - * / (exact rational oracle), txs = one '
+        'Transaction object through bumpfee (1..4 change outputs in every relation to the extra fee: below / equal / '
+        'between 1x and 2x / above 2x the remaining amount; fee, extra_fee, default, below the minimum), add_output (int, '
+        'float, text, Value), update_totals, sign_and_update, estimate_size, calculate_fee on 5 networks x legacy/segwit x '
+        'signed/unsigned: after every operation raw() is re-read by the oracle; wtx = wallet transaction_create with 1..4 '
+        'change outputs and WalletTransaction.bumpfee')
 
 TOP = 21 * 10 ** 14
 # metric prefixes (exponent relative to the main unit), written from https://en.bitcoin.it/wiki/Units
@@ -169,6 +192,14 @@ def prop_check(c, out):
     k = t[0]
     if out.startswith('CRASH') or out == 'BADREQ' or out.startswith('?'):
         return 'unexpected answer %r' % out[:120]
+    if k == 'seq':
+        return check_seq(c, out)
+    if k == 'vobj':
+        return check_vobj(c, out)
+    if k == 'txs':
+        return check_txs(c, out)
+    if k == 'wtx':
+        return check_wtx(c, out)
     if c.kind.startswith('bad_') or c.kind == 'tables' or k == 'arith':
         return None
     if k in ('vts', 'val', 'tobytes'):
@@ -286,6 +317,504 @@ def prop_check(c, out):
     return None
 
 
+# ---------------------------------------------------------------- sessions: conversions in ONE process
+SAFE_TOP = 10 ** 12      # below this every float expression of values.py is exact to far less than half a unit
+STEP_KIND = {'vts': 'ok_vts', 'val': 'ok_val', 'tobytes': 'ok_tobytes', 'output': 'ok_output', 'rt': 'rt', 'str': 'str',
+             'strv': 'strv', 'addout': 'addout', 'outraw': 'outraw', 'fromsat': 'fromsat', 'arith': 'arith'}
+
+
+def split_steps(toks):
+    steps, cur = [], []
+    for x in toks:
+        if x == '|':
+            steps.append(cur)
+            cur = []
+        else:
+            cur.append(x)
+    steps.append(cur)
+    return steps
+
+
+def check_seq(c, out):
+    """every step must satisfy the property on its own (the stateless oracle of the step), and equal steps must get
+    equal answers: nothing an earlier conversion did may change a later one"""
+    steps = split_steps(c.req.split(' ')[1:])
+    answers = out.split(' | ')
+    if len(answers) != len(steps):
+        return 'session of %d steps answered with %d answers: %r' % (len(steps), len(answers), out[:120])
+    seen = {}
+    for i, (st, a) in enumerate(zip(steps, answers)):
+        bad = st and st[0] == '!'
+        if bad:
+            st = st[1:]
+        if not st:
+            continue
+        kind = ('bad_' + st[0]) if bad else STEP_KIND.get(st[0], st[0])
+        r = prop_check(Case(kind, ' '.join(st)), a)
+        if r is not None:
+            return 'step %d of the session (%s): %s' % (i + 1, ' '.join(st)[:80], r)
+        key = ' '.join(st)
+        if key in seen and seen[key][1] != a:
+            return 'step %d repeats step %d (%s) but is answered %r instead of %r' % (
+                i + 1, seen[key][0] + 1, key[:80], a[:60], seen[key][1][:60])
+        seen.setdefault(key, (i, a))
+    return None
+
+
+def _net_of_text(text, default):
+    parts = text.split()
+    if len(parts) == 2:
+        su = split_unit(parts[1])
+        if su and su[1]:
+            return CODE_NET[su[1].upper()]
+    return default
+
+
+def check_vobj(c, out):
+    """one Value object: the exact amount is tracked with rationals through + - * /; value_sat must be that amount
+    (rounded), to_bytes its encoding, str() a text denoting it — at every point, however often it was observed"""
+    t = c.req.split(' ')
+    f = t[1].split(',')
+    ans = out.split(' | ')
+    if ans[0] == 'ERR':
+        return 'Value object of a well-formed amount cannot be created: %s' % t[1][:80]
+    if len(ans) != len(t) - 1:
+        return 'vobj session of %d operations answered with %d answers' % (len(t) - 2, len(ans) - 1)
+    if f[0] == 'S':
+        E = exact_units(unhs(f[1]))
+        net = _net_of_text(unhs(f[1]), unhs(f[2]))
+    else:
+        E = Fraction(int(f[1]))
+        net = unhs(f[3])
+    if E is None:
+        return None
+    for i, (op, a) in enumerate(zip(t[2:], ans[1:])):
+        o = op.split(',')
+        where = 'operation %d (%s)' % (i + 1, op[:60])
+        if o[0] == 'sat':
+            if not is_int_tok(a) or not nearest_ok(int(a), E):
+                return '%s: value_sat = %s, exact amount is %s' % (where, a, E)
+        elif o[0] == 'bytes':
+            if E.denominator == 1 and 0 <= E < 2 ** 64 and a != int(E).to_bytes(8, 'little').hex():
+                return '%s: to_bytes() = %s, exact amount is %s' % (where, a, E)
+        elif o[0] == 'str':
+            sym = _dspec_symbol(o[1], None) if o[1] != '-' else None
+            if o[2] == '-' and o[1].startswith('s:') and sym in SYMS and SYMS[sym] <= 0 and E >= 0 and a != 'ERR':
+                ex = exact_units(unhs(a))
+                if ex is None or abs(ex - E) > Fraction(1, 2):
+                    return '%s: str() = %r denotes %s units, exact amount is %s' % (where, unhs(a), ex, E)
+            elif a == 'ERR' and o[1].startswith('s:') and sym in SYMS and o[2] == '-':
+                return '%s: str() raises' % where
+        elif o[0] in ('add', 'iadd', 'sub', 'isub', 'addk', 'subk'):
+            keep = o[0].endswith('k')
+            b = exact_units(unhs(o[1]))
+            bnet = _net_of_text(unhs(o[1]), 'bitcoin')
+            if b is None:
+                continue
+            if bnet != net:
+                if a != 'ERR':
+                    return '%s: amounts of networks %s and %s combined' % (where, net, bnet)
+                continue
+            if a == 'ERR':
+                return '%s: raises' % where
+            E2 = E + b if o[0] in ('add', 'iadd', 'addk') else E - b
+            got = a.split(' ')[-1]
+            if not is_int_tok(got) or not nearest_ok(int(got), E2):
+                return '%s: result has value_sat %s, exact amount is %s' % (where, got, E2)
+            if not keep:
+                E = E2
+        elif o[0] in ('mul', 'div', 'mulk', 'divk'):
+            keep = o[0].endswith('k')
+            k = int(o[1])
+            if o[0].startswith('div') and k == 0:
+                if a != 'ERR':
+                    return '%s: division by zero answered %s' % (where, a[:40])
+                continue
+            if a == 'ERR':
+                return '%s: raises' % where
+            E2 = E * k if o[0].startswith('mul') else E / k
+            got = a.split(' ')[-1]
+            if not is_int_tok(got) or not nearest_ok(int(got), E2):
+                return '%s: result has value_sat %s, exact amount is %s' % (where, got, E2)
+            if not keep:
+                E = E2
+    return None
+
+
+# ---------------------------------------------------------------- sessions: amounts of one Transaction object
+def out_hash(i):
+    return hashlib.sha256(b'c17-out-%d' % i).digest()[:20]
+
+
+OUT_IDX = {out_hash(i): i for i in range(256)}
+
+
+def _varint(b, p):
+    x = b[p]
+    if x < 253:
+        return x, p + 1
+    n = {253: 2, 254: 4, 255: 8}[x]
+    return int.from_bytes(b[p + 1:p + 1 + n], 'little'), p + 1 + n
+
+
+def parse_raw_tx(h):
+    """read a serialised transaction (BIP144 aware), independently of the library: ([(value, output tag)], vsize)"""
+    b = bytes.fromhex(h)
+    segwit = len(b) > 6 and b[4] == 0 and b[5] == 1
+    p = 6 if segwit else 4
+    start = p
+    n_in, p = _varint(b, p)
+    for _ in range(n_in):
+        p += 36
+        l, p = _varint(b, p)
+        p += l + 4
+    n_out, p = _varint(b, p)
+    outs = []
+    for _ in range(n_out):
+        v = int.from_bytes(b[p:p + 8], 'little')
+        p += 8
+        l, p = _varint(b, p)
+        scr = b[p:p + l]
+        p += l
+        if len(scr) == 22 and scr[:2] == b'\x00\x14':
+            tag = OUT_IDX.get(scr[2:], '?')
+        elif len(scr) == 25 and scr[:3] == b'\x76\xa9\x14':
+            tag = OUT_IDX.get(scr[3:23], '?')
+        else:
+            tag = '?'
+        outs.append((v, tag))
+    base = 4 + (p - start) + 4
+    if segwit:
+        for _ in range(n_in):
+            n, p = _varint(b, p)
+            for _ in range(n):
+                l, p = _varint(b, p)
+                p += l
+    if p + 4 != len(b):
+        raise ValueError('trailing bytes')
+    weight = base * 3 + len(b)
+    return outs, -(-weight // 4)
+
+
+def _snap(step):
+    """fields of one answer segment of a txs session"""
+    toks = step.split(' ')
+    d = {'res': toks[0], 'tok': '', 'r': None}
+    for x in toks[1:]:
+        if '=' in x:
+            k, _, v = x.partition('=')
+            d[k] = v
+        else:
+            d['tok'] = x
+    return d
+
+
+def _amt(tok):
+    """the Python int a reported amount token stands for, or None when it is not an int"""
+    if tok is not None and tok.startswith('i:'):
+        return int(tok[2:])
+    return None
+
+
+def _outs(d):
+    res = []
+    if d.get('out', '-') == '-':
+        return res
+    for x in d['out'].split(','):
+        i, _, rest = x.partition(':')
+        v, _, c = rest.rpartition(':')
+        res.append((i, v, c == '1'))
+    return res
+
+
+def txs_exceeds_inputs(req):
+    """decided from the request alone: at some point the outputs (constructor + add_output) exceed the inputs"""
+    t = req.split(' ')
+    try:
+        tin = sum(int(x) for x in t[4].split(','))
+        tot = sum(int(x.split(':')[0]) for x in t[5].split(','))
+        for op in t[6:]:
+            o = op.split(',')
+            if o[0] == 'a' and o[1].startswith('i:'):
+                tot += max(0, int(o[1][2:]))
+            elif o[0] == 'a' and o[1].startswith('f:'):
+                x = float.fromhex(o[1][2:])
+                tot += int(x) if x == x and abs(x) < 1e30 and x > 0 else 0
+            elif o[0] == 'a' and o[1].startswith('s:'):
+                try:
+                    tot += max(0, int(float(unhs(o[1][2:]))))
+                except Exception:
+                    pass
+            elif o[0] == 'av':
+                ex = exact_units(unhs(o[1]))
+                tot += int(ex) if ex is not None and ex > 0 else 0
+            if tot > tin:
+                return True
+    except Exception:
+        return False
+    return False
+
+
+def check_txs(c, out):
+    """after every operation the bytes raw() returns are re-read here: every output value is a non-negative integer equal to
+    the one the object reports, inputs - outputs is the reported non-negative integer fee after every operation that
+    settles the totals, and a fee bump takes what was asked for out of the change outputs and nothing else"""
+    t = c.req.split(' ')
+    ins = [int(x) for x in t[4].split(',')] if t[4] != '-' else []
+    outs0 = [x.split(':') for x in t[5].split(',')] if t[5] != '-' else []
+    tin, tout0 = sum(ins), sum(int(v) for v, _ in outs0)
+    segs = out.split(' | ')
+    if segs[0].startswith('ERR'):
+        if 0 < tout0 < tin and all(int(v) >= 0 for v, _ in outs0):
+            return 'transaction with inputs %d > outputs %d cannot be constructed / signed: %s' % (tin, tout0, segs[0][:60])
+        return None
+    ops = t[6:]
+    if len(segs) != len(ops) + 1:
+        return 'txs session of %d operations answered with %d segments' % (len(ops), len(segs) - 1)
+    prev = None
+    for i, seg in enumerate(segs):
+        d = _snap(seg)
+        op = ops[i - 1].split(',') if i else ['init']
+        where = 'after operation %d (%s)' % (i, ops[i - 1][:50]) if i else 'after construction'
+        ok = d['res'] == 'OK'
+        outs = _outs(d)
+        # -- inputs untouched
+        if d.get('in') != (','.join('i:%d' % v for v in ins) or '-'):
+            return '%s: input values are %s, constructed with %s' % (where, d.get('in'), ins)
+        # -- what the object holds / what raw() serialises
+        vals = []
+        for (tag, v, chg) in outs:
+            z = _amt(v)
+            if z is None:
+                return '%s: output %s holds %s, not an integer' % (where, tag, v)
+            vals.append(z)
+        neg = [z for z in vals if z < 0 or z >= 2 ** 64]
+        if neg and op[0] not in ('a', 'av') and not (prev and prev['neg']):
+            return '%s: output value %d out of range produced from non-negative outputs' % (where, neg[0])
+        raw_vs = None
+        if d.get('raw') == 'ERR':
+            if not neg:
+                return '%s: raw() fails although all output values are in range' % where
+        else:
+            try:
+                routs, raw_vs = parse_raw_tx(d['raw'])
+            except Exception as e:
+                return '%s: raw() unreadable: %r' % (where, e)
+            if neg:
+                return '%s: raw() serialises an out-of-range output value %d' % (where, neg[0])
+            if [(v, str(tag)) for v, tag in routs] != [(z, tag) for z, (tag, _, _) in zip(vals, outs)]:
+                return '%s: raw() carries outputs %s, the object reports %s' % (
+                    where, [(v, tag) for v, tag in routs], list(zip(vals, [o[0] for o in outs])))
+        # -- fee
+        fee = _amt(d.get('fee'))
+        if d.get('fee') != 'N' and fee is None:
+            return '%s: fee is %s, not an integer' % (where, d.get('fee'))
+        settled = (op[0] in ('init', 'u') or (op[0] in ('s', 'b') and ok)) and not neg
+        if settled and tin > 0:
+            if fee != tin - sum(vals):
+                return '%s: reported fee %s, inputs %d - outputs %d = %d' % (where, fee, tin, sum(vals), tin - sum(vals))
+            if fee < 0:
+                return '%s: fee %d is negative' % (where, fee)
+        fpk = _amt(d.get('fpk'))
+        if d.get('fpk') != 'N' and fpk is None:
+            return '%s: fee_per_kb is %s, not an integer' % (where, d.get('fpk'))
+        vsa = _amt(d.get('vsa'))
+        if d.get('vsa') != 'N' and vsa is None:
+            return '%s: vsize is %s, not an integer' % (where, d.get('vsa'))
+        signed = (op[0] in ('s', 'b') and ok) or (op[0] == 'init' and t[3] == 'S' and ok)
+        if signed and raw_vs is not None:
+            if vsa != raw_vs:
+                return '%s: vsize %s, the serialised transaction weighs %d vbytes' % (where, vsa, raw_vs)
+            if fee is not None and fee > 0 and (fpk is None or
+                                                abs(Fraction(fee * 1000, raw_vs) - fpk) > 1 + Fraction(fee * 1000, raw_vs) / 2 ** 50):
+                return '%s: fee_per_kb %s for fee %d on %d vbytes' % (where, fpk, fee, raw_vs)
+        # -- results of the estimating calls
+        if op[0] in ('e', 'c') and ok:
+            r = _amt(d.get('r'))
+            if r is None or r < 0:
+                return '%s: estimate %s is not a non-negative integer' % (where, d.get('r'))
+        # -- operation-specific
+        if i and prev is not None:
+            pouts, pvals, pfee = prev['outs'], prev['vals'], prev['fee']
+            if op[0] in ('u', 's', 'e', 'c') or (not ok and op[0] in ('a', 'av')) or \
+                    (not ok and op[0] == 'b' and d['tok'] != 'badvalue'):
+                if outs != pouts:
+                    return '%s: outputs changed from %s to %s' % (where, pouts, outs)
+            if not ok and op[0] == 'b' and d['tok'] != 'badvalue' and d.get('fee') != prev['feetok']:
+                return '%s: failed bumpfee changed the fee from %s to %s' % (where, prev['feetok'], d.get('fee'))
+            if op[0] in ('a', 'av'):
+                want = None
+                if op[0] == 'a':
+                    if op[1].startswith('i:'):
+                        want = int(op[1][2:])
+                    elif op[1].startswith('f:'):
+                        x = float.fromhex(op[1][2:])
+                        want = int(x) if x == x and x not in (float('inf'), float('-inf')) and x.is_integer() else 'ERR'
+                else:
+                    ex = exact_units(unhs(op[1]))
+                    if ex is not None:
+                        # a fraction of the smallest unit is rounded by value_to_satoshi (as for Output(<Value>))
+                        want = int(ex) if ex.denominator == 1 else None
+                        if ok and ex.denominator != 1 and abs(vals[-1] - ex) >= 1:
+                            return '%s: output holds %d, the amount handed over is %s smallest units' % (where, vals[-1], ex)
+                if ok:
+                    if outs[:-1] != pouts or len(outs) != len(pouts) + 1:
+                        return '%s: add_output changed the existing outputs' % where
+                    if want == 'ERR':
+                        return '%s: a non-integer amount was accepted as %s' % (where, outs[-1][1])
+                    if want is not None and vals[-1] != want:
+                        return '%s: output holds %d, the amount handed over is %d smallest units' % (where, vals[-1], want)
+                    if outs[-1][2] != (op[2] == '1'):
+                        return '%s: change flag of the new output' % where
+                elif op[0] == 'av' and want not in (None, 'ERR') and 0 <= want < 2 ** 63 and \
+                        _net_of_text(unhs(op[1]), unhs(t[1])) == unhs(t[1]):
+                    return '%s: a Value of exactly %d smallest units is refused' % (where, want)
+            if op[0] == 'b' and not prev['neg']:
+                r = check_bump(where, op, d, ok, prev, outs, vals, fee, tin)
+                if r:
+                    return r
+        prev = dict(outs=outs, vals=vals, fee=fee, feetok=d.get('fee'), neg=bool(neg), vs=vsa)
+    return None
+
+
+def check_bump(where, op, d, ok, prev, outs, vals, fee, tin):
+    pouts, pvals, pfee = prev['outs'], prev['vals'], prev['fee']
+    farg, earg = int(op[1]), int(op[2])
+    balanced = pfee is not None and tin > 0 and pfee == tin - sum(pvals)
+    e = earg if (earg and not farg) else (farg - pfee if farg and pfee is not None else None)
+    change_total = sum(z for z, (_, _, chg) in zip(pvals, pouts) if chg)
+    if not ok:
+        if d['tok'] == 'badvalue':
+            return '%s: bumpfee drove an output negative / raw() refuses the bumped transaction' % where
+        if d['tok'] == 'bumpnochange' and e is not None and 0 < e <= change_total:
+            return '%s: bumpfee refuses although the change outputs (%d) cover the extra fee %d' % (where, change_total, e)
+        return None
+    if e is not None and e > change_total:
+        return '%s: bumpfee by %d succeeded with only %d in change outputs' % (where, e, change_total)
+    pmap = {tag: (z, chg) for z, (tag, _, chg) in zip(pvals, pouts)}
+    kept = set()
+    for z, (tag, _, chg) in zip(vals, outs):
+        if tag not in pmap:
+            return '%s: output %s appeared during bumpfee' % (where, tag)
+        pz, pchg = pmap[tag]
+        kept.add(tag)
+        if chg != pchg:
+            return '%s: change flag of output %s flipped' % (where, tag)
+        if not chg and z != pz:
+            return '%s: payment output %s changed from %d to %d' % (where, tag, pz, z)
+        if z > pz:
+            return '%s: change output %s grew from %d to %d' % (where, tag, pz, z)
+    if [tag for (tag, _, _) in outs] != [tag for (tag, _, _) in pouts if tag in kept]:
+        return '%s: outputs reordered' % where
+    dropped = [pz for tag, (pz, pchg) in pmap.items() if tag not in kept]
+    if any(not pchg for tag, (pz, pchg) in pmap.items() if tag not in kept):
+        return '%s: a payment output was removed' % where
+    if balanced and fee is not None:
+        if e is None:                       # default bump: some positive amount
+            if fee <= pfee:
+                return '%s: default bumpfee did not raise the fee (%d -> %d)' % (where, pfee, fee)
+            return None
+        over = fee - pfee - e
+        if over < 0:
+            return '%s: fee %d -> %d, asked for %d more' % (where, pfee, fee, e)
+        if over and (not dropped or over >= max(dropped) or over > e):
+            return '%s: fee %d -> %d pays %d more than the %d asked for (dropped change outputs: %s)' % (
+                where, pfee, fee, over, e, dropped)
+    return None
+
+
+# ---------------------------------------------------------------- wallet level: transaction_create / send / WalletTransaction.bumpfee
+def check_wtx(c, out):
+    """oracle only (the model of these operations is C07): the amounts of a wallet-built transaction, re-read from raw()"""
+    t = c.req.split(' ')
+    utxos = sorted(int(x) for x in t[2].split(','))
+    pays = [int(x) for x in t[3].split(',')]
+    segs = out.split(' | ')
+    if segs[0].startswith('ERR'):
+        if segs[0] == 'ERR send:conserve':
+            return 'send: the amounts the wallet computed do not add up (inputs != outputs + fee)'
+        if segs[0] == 'ERR send:badamount':
+            return 'send: the wallet computed an output amount that is not a non-negative integer'
+        return None
+    prev = None
+    for i, seg in enumerate(segs):
+        d = _snap(seg)
+        where = 'after bumpfee' if i else 'after send'
+        ok = d['res'] == 'OK'
+        outs = _outs(d)
+        vals = []
+        for (tag, v, chg) in outs:
+            z = _amt(v)
+            if z is None or z < 0:
+                return '%s: output %s holds %s, not a non-negative integer' % (where, tag, v)
+            vals.append(z)
+        invals = [_amt(x) for x in d.get('in', '-').split(',')] if d.get('in', '-') != '-' else []
+        if any(x is None for x in invals):
+            return '%s: input values %s' % (where, d.get('in'))
+        pool = list(utxos)
+        for x in invals:
+            if x not in pool:
+                return '%s: input of %d is not an unspent output of the wallet (%s)' % (where, x, utxos)
+            pool.remove(x)
+        if d.get('raw') == 'ERR':
+            return '%s: raw() fails' % where
+        try:
+            routs, _ = parse_raw_tx(d['raw'])
+        except Exception as e:
+            return '%s: raw() unreadable: %r' % (where, e)
+        if [(v, str(tag)) for v, tag in routs] != [(z, tag) for z, (tag, _, _) in zip(vals, outs)]:
+            return '%s: raw() carries outputs %s, the object reports %s' % (where, routs, list(zip(vals, [o[0] for o in outs])))
+        fee = _amt(d.get('fee'))
+        if fee is None or fee < 0:
+            return '%s: fee %s is not a non-negative integer' % (where, d.get('fee'))
+        if ok or i == 0:
+            if fee != sum(invals) - sum(vals):
+                return '%s: reported fee %d, inputs %d - outputs %d = %d' % (where, fee, sum(invals), sum(vals), sum(invals) - sum(vals))
+        # recipients are paid exactly once, exactly the amount; everything else is change
+        for j, amt in enumerate(pays):
+            hit = [z for z, (tag, _, chg) in zip(vals, outs) if tag == str(j)]
+            if hit != [amt]:
+                return '%s: recipient %d is paid %s, asked for %d' % (where, j, hit, amt)
+        if any(chg for (tag, _, chg) in outs if tag != '?') or any(not chg for (tag, _, chg) in outs if tag == '?'):
+            return '%s: change flags %s' % (where, outs)
+        if i == 0:
+            nchg = sum(1 for (tag, _, _) in outs if tag == '?')
+            k = int(t[5])
+            if (k and nchg > k) or nchg > 5:
+                return 'after send: %d change outputs, asked for %d' % (nchg, k)
+            if not t[4].startswith('N:'):
+                asked = int(t[4])
+                if fee < asked or (nchg and fee != asked):
+                    return 'after send: fee %d, asked for %d (change outputs: %d)' % (fee, asked, nchg)
+        elif ok and prev is not None:
+            farg, earg = (int(x) for x in t[7].split(','))
+            pfee = prev['fee']
+            if invals[:len(prev['ins'])] != prev['ins'] or len(invals) > len(prev['ins']) + 1:
+                return 'after bumpfee: inputs changed from %s to %s' % (prev['ins'], invals)
+            added = sum(invals) - sum(prev['ins'])
+            e = earg if (earg and not farg) else (farg - pfee if farg else None)
+            if e is None:
+                if fee <= pfee:
+                    return 'after bumpfee: default bump did not raise the fee (%d -> %d)' % (pfee, fee)
+            else:
+                over = fee - pfee - e
+                pch = sorted(z for z, (tag, _, _) in zip(prev['vals'], prev['outs']) if tag == '?')
+                nch = sorted(z for z, (tag, _, _) in zip(vals, outs) if tag == '?')
+                dropped = len(pch) + (1 if added and not pch else 0) - len(nch)
+                if over < 0:
+                    return 'after bumpfee: fee %d -> %d, asked for %d more' % (pfee, fee, e)
+                if over and (dropped <= 0 or over > e or over >= (max(pch) if pch else 0) + added):
+                    return 'after bumpfee: fee %d -> %d pays %d more than the %d asked for (change before %s, after %s, input added %d)' % (
+                        pfee, fee, over, e, pch, nch, added)
+        elif not ok and prev is not None:
+            # a refused bump may leave the wallet input it tried behind; the amounts must still add up
+            if fee != sum(invals) - sum(vals):
+                return 'after a refused bumpfee (%s): reported fee %d, inputs %d - outputs %d = %d' % (
+                    d['tok'], fee, sum(invals), sum(vals), sum(invals) - sum(vals))
+        prev = dict(outs=outs, vals=vals, fee=fee, ins=invals)
+    return None
+
+
 # ---------------------------------------------------------------- known classes (decided from the request alone)
 def _sym_class(sym):
     return lambda c, io, mo: sym in req_symbols(c)
@@ -296,14 +825,102 @@ KNOWN_CLASSES['output_ctor_unchecked'] = \
     lambda c, io, mo: c.req.startswith('outraw f:')
 
 
+def known_status(cid):
+    """'known' / 'fixed' / None: how a finding is recorded (known_findings.json, VERIF_EXTRA_KNOWN)"""
+    st = None
+    for e in load_known(PROP):
+        if e.get('id') == cid:
+            st = e.get('status')
+    return st
+
+
+# a Transaction object accepts outputs beyond its inputs; update_totals() then reports a negative fee
+KNOWN_CLASSES['fee_negative'] = lambda c, io, mo: c.req.startswith('txs ') and txs_exceeds_inputs(c.req) and \
+    known_status('fee_negative') == 'known' 
+# add_output(<Value object>) takes the amount in main units (int(Value)); predicate live while recorded as 'known'
+KNOWN_CLASSES['addoutput_value_units'] = \
+    lambda c, io, mo: c.req.startswith('txs ') and any(o.startswith('av,') for o in c.req.split(' ')[6:]) and \
+    known_status('addoutput_value_units') == 'known'
+
+
 def reproduce_known(entry, rundir):
     from core import run_impl
-    rc, out, err = run_impl(IMPL, [entry['witness']['request']], rundir)
+    req = entry['witness']['request']
+    rc, out, err = run_impl(IMPL, [req], rundir)
+    if len(out) == 1 and req.startswith('txs '):
+        # the recorded answer of a transaction session is its amount part (no signatures / raw bytes)
+        return _txs_canon(Case('txs', req), out[0]) == entry['witness']['impl_answer']
     return len(out) == 1 and out[0] == entry['witness']['impl_answer']
 
 
 def is_trivial(c, out):
     return out.startswith('ERR') or out == 'BADREQ'
+
+
+# ---------------------------------------------------------------- model request / comparison
+MULT = (1.03 ** 5).as_integer_ratio()      # the binary64 constant of the default fee bump
+_side = {}
+
+
+def _load_side():
+    if not _side:
+        import core as _core
+        p = os.path.join(RUN, PROP + ('_alt_%d' % os.getpid() if _core.ALT else ''), 'c17_side.json')
+        _side.update(json.load(open(p)) if os.path.exists(p) else {})
+        _side['__loaded__'] = 1
+    return _side
+
+
+def model_req(c):
+    """txs sessions: the sizes of the (re-)signed transaction, reported by the adapter, are inputs of the model"""
+    if c.req.startswith('wtx '):
+        return 'tables'
+    if not c.req.startswith('txs '):
+        return c.req
+    side = _load_side().get(c.req)
+    t = c.req.split(' ')
+    if side is None or len(side) != len(t) - 5:
+        return 'txs-nosizes'
+    rep = '1' if known_status('addoutput_value_units') == 'fixed' else '0'
+    if t[3] == 'S':
+        t[3] = 'S%d' % side[0][1]
+    for j, op in enumerate(t[6:]):
+        o = op.split(',')
+        pre, post = side[j + 1]
+        if o[0] == 'b':
+            o += [str(pre), '%d/%d' % MULT, str(post)]
+        elif o[0] == 'av':
+            o.insert(1, rep)
+        elif o[0] == 'u':
+            o.append(str(pre))
+        elif o[0] == 's':
+            o.append(str(post))
+        elif o[0] == 'c':
+            o.append(str(pre))
+        t[6 + j] = ','.join(o)
+    return ' '.join(t)
+
+
+def _txs_canon(c, io):
+    segs = io.split(' | ')
+    ops = ['init'] + c.req.split(' ')[6:]
+    res = []
+    for k, seg in enumerate(segs):
+        cut = seg.find(' in=')
+        if cut >= 0:
+            seg = seg[:cut]
+        if k < len(ops) and ops[k].startswith('e,'):
+            seg = ' '.join(x for x in seg.split(' ') if not x.startswith('r='))
+        res.append(seg)
+    return ' | '.join(res)
+
+
+def same(c, io, mo):
+    if c.req.startswith('txs '):
+        return _txs_canon(c, io) == mo
+    if c.req.startswith('wtx '):
+        return True                      # no model here (C07 has it); the independent oracle decides
+    return io == mo
 
 
 # ---------------------------------------------------------------- generators
@@ -362,11 +979,398 @@ def hard_decimal_strings(rng, count):
     return res
 
 
+# ---------------------------------------------------------------- session generators
+SAFE_SYMS = [x for x in SYMS if x != 'da']
+RT_SYMS = [x for x in SYMS if SYMS[x] <= 0]       # default decimals of str() can hold one smallest unit
+SESSION_CODES = ['BTC', 'LTC', 'DOGE', 'TST', 'XLT']
+
+
+def unit_ok(sym, code):
+    """the unit token <sym><code> reads as this symbol with this currency (and not e.g. 'T'+'BTC' = currency tBTC)"""
+    return split_unit(sym + code) == (sym, code)
+
+
+def safe_amount(rng):
+    m = rng.randrange(6)
+    if m == 0:
+        return rng.randrange(0, 1000)
+    if m == 1:
+        return rng.randrange(1, 10 ** rng.randrange(1, 13)) % (SAFE_TOP + 1)
+    if m == 2:
+        return rng.choice([1, 10, 100, 12345, 100000, 150000, 10 ** 8, 10 ** 8 + 1, 10 ** 11, SAFE_TOP, SAFE_TOP - 1, 99999999])
+    return rng.randrange(SAFE_TOP + 1)
+
+
+def parse_step(rng, n, sym, code, how=None):
+    """one well-formed parsing step for n smallest units written in <sym><code>"""
+    text = amount_str(n, sym, code, trim=rng.random() < 0.5)
+    net = CODE_NET[code.upper()] if code else 'bitcoin'
+    how = how or rng.choice(['vts', 'vts', 'val', 'val', 'output', 'tobytes', 'vtsn'])
+    if how == 'vts':
+        return 'vts %s -' % hs(text)
+    if how == 'vtsn':
+        return 'vts %s %s' % (hs(text), hs(net))
+    if how == 'val':
+        return 'val %s %s' % (hs(text), hs(net))
+    if how == 'output':
+        return 'output s:%s %s' % (hs(text), hs(net))
+    return 'tobytes %s %s' % (hs(text), hs(net))
+
+
+def format_step(rng, n, sym, net):
+    d = ('s:' + hs(sym)) if sym else 'f:' + (1.0).hex()
+    m = rng.randrange(3)
+    if m == 0:
+        return 'rt %d %s %s' % (n, d, hs(net))
+    if m == 1:
+        return 'str %d - %s - %s' % (n, d, hs(net))
+    return 'str %d %s %s - %s' % (n, d, d, hs(net))
+
+
+BAD_STEPS = ['1 XYZ', '1 daBTC', 'abc', '', '1 mm', '1 EUR', 'nan BTC', '1 BTC extra', '1e400 BTC', '1 mXYZ', '-', '1 KBTC']
+
+
+def case_variants(sym, code):
+    """unit tokens that differ from <sym><code> only in letter case and are themselves well-formed units"""
+    res = []
+    for s2 in {sym, sym.lower(), sym.upper(), sym.swapcase()}:
+        for c2 in {code, code.lower(), code.upper(), code.capitalize()}:
+            su = split_unit(s2 + c2)
+            if su is not None and su[0] in SAFE_SYMS and (s2 + c2) != (sym + code):
+                res.append((s2 + c2, su[0]))
+    return sorted(res)
+
+
+def gen_seq_sessions(rng, big):
+    ss = []
+    # (1) every ordered pair of denominator symbols, one currency: a lookup remembered under too coarse a key
+    for s1 in SAFE_SYMS:
+        for s2 in SAFE_SYMS:
+            code = SESSION_CODES[(len(ss)) % len(SESSION_CODES)]
+            if not (unit_ok(s1, code) and unit_ok(s2, code)):
+                code = 'LTC'
+            n1, n2 = safe_amount(rng), safe_amount(rng)
+            how = ['vts', 'val', 'vtsn', 'output'][len(ss) % 4]
+            ss.append(' | '.join([parse_step(rng, n1, s1, code, how), parse_step(rng, n2, s2, code, how),
+                                  parse_step(rng, n1, s1, code, how)]))
+    # (2) units that differ only in letter case (mBTC / MBTC / mbtc / Mbtc ...), both orders, every currency
+    for code in CODES:
+        for sym in SAFE_SYMS:
+            if not unit_ok(sym, code):
+                continue
+            for (u2, s2) in case_variants(sym, code):
+                n = rng.choice([1, 3, 25, 12345]) * 10 ** max(0, SYMS[sym] + 8, SYMS[s2] + 8)
+                if n > SAFE_TOP * 10 ** 6:
+                    continue
+                t1 = dec_str(n, SYMS[sym] + 8, True) + ' ' + sym + code
+                t2 = dec_str(n, SYMS[s2] + 8, True) + ' ' + u2
+                for a, b in ((t1, t2), (t2, t1)):
+                    how = rng.choice(['vts %s -', 'val %s ' + hs('bitcoin')])
+                    ss.append(' | '.join([how % hs(a), how % hs(b), how % hs(a)]))
+    # (3) the same unit under every currency, and the bare symbol: a lookup remembered without the currency
+    for sym in SAFE_SYMS:
+        steps = []
+        codes = [c for c in CODES if unit_ok(sym, c)]
+        rng.shuffle(codes)
+        for code in codes + ['']:
+            steps.append('val %s %s' % (hs(amount_str(safe_amount(rng), sym, code, trim=True)), hs('bitcoin')))
+        ss.append(' | '.join(steps))
+    # (4) format -> parse with every denominator in a row, forwards and backwards, then the parses again
+    for _ in range(40 if big else 12):
+        n = safe_amount(rng)
+        net = rng.choice(['bitcoin', 'litecoin', 'dogecoin', 'testnet'])
+        order = list(RT_SYMS)
+        if rng.random() < 0.5:
+            rng.shuffle(order)
+        steps = ['rt %d %s %s' % (n, ('s:' + hs(y)) if y else 'f:' + (1.0).hex(), hs(net)) for y in order + order[::-1]]
+        ss.append(' | '.join(steps))
+    # (5) long mixed sessions: parse / format / outputs in every unit, malformed strings in between, repeats
+    for _ in range(600 if big else 60):
+        steps = []
+        pool = []
+        for _ in range(rng.randrange(8, 40)):
+            r = rng.random()
+            if r < 0.08:
+                bad = rng.choice(BAD_STEPS)
+                steps.append('! ' + rng.choice(['vts %s -', 'val %s ' + hs('bitcoin'), 'strv %s a - ' + hs('bitcoin')]) % hs(bad))
+            elif r < 0.2 and pool:
+                steps.append(rng.choice(pool))
+            elif r < 0.65:
+                sym = rng.choice(SAFE_SYMS)
+                code = rng.choice([c for c in CODES + [''] if c == '' or unit_ok(sym, c)])
+                st = parse_step(rng, safe_amount(rng), sym, code)
+                steps.append(st)
+                pool.append(st)
+            elif r < 0.9:
+                st = format_step(rng, safe_amount(rng), rng.choice(RT_SYMS), rng.choice(NETS))
+                steps.append(st)
+                pool.append(st)
+            else:
+                n = safe_amount(rng)
+                steps.append(rng.choice(['addout i:%d %s' % (n, hs('bitcoin')), 'outraw i:%d %s' % (n, hs('litecoin')),
+                                         'addout f:%s %s' % (float(n).hex(), hs('bitcoin')),
+                                         'fromsat %d - %s' % (n, hs('dogecoin'))]))
+        ss.append(' | '.join(steps))
+    # (6) one text under every way of handing over the network (none / its own / another / as Value(network=)): an answer
+    #     remembered per text, or a network left over from the previous call
+    for _ in range(200 if big else 40):
+        sym = rng.choice(SAFE_SYMS)
+        code = rng.choice([c for c in SESSION_CODES + [''] if c == '' or unit_ok(sym, c)])
+        text = amount_str(safe_amount(rng), sym, code, trim=True)
+        own = CODE_NET[code.upper()] if code else 'bitcoin'
+        others = [x for x in ('bitcoin', 'litecoin', 'dogecoin', 'testnet') if x != own]
+        forms = ['vts %s -' % hs(text), 'vts %s %s' % (hs(text), hs(own)), 'vts %s %s' % (hs(text), hs(rng.choice(others))),
+                 'val %s %s' % (hs(text), hs(own)), 'val %s %s' % (hs(text), hs(rng.choice(others))),
+                 'output s:%s %s' % (hs(text), hs(own)), 'output s:%s %s' % (hs(text), hs(rng.choice(others))),
+                 'strv %s - - %s' % (hs(text), hs(own))]
+        rng.shuffle(forms)
+        ss.append(' | '.join(forms + forms[:3]))
+    return [Case('seq', 'seq ' + x) for x in ss]
+
+
+def gen_vobj_sessions(rng, big):
+    cs = []
+    for j in range(1500 if big else 150):
+        n = safe_amount(rng) % (10 ** 11 + 1)
+        if j % 2:
+            sym = rng.choice(SAFE_SYMS)
+            code = rng.choice([c for c in ['BTC', 'BTC', 'LTC', ''] if c == '' or unit_ok(sym, c)])
+            init = 'S,%s,%s' % (hs(amount_str(n, sym, code, trim=rng.random() < 0.5)), hs('bitcoin'))
+        else:
+            sym = rng.choice(RT_SYMS)
+            init = 'N,%d,%s,%s' % (n, ('s:' + hs(sym)) if sym and rng.random() < 0.7 else '-', hs(rng.choice(['bitcoin', 'bitcoin', 'litecoin'])))
+        ops = []
+        for _ in range(rng.randrange(4, 16)):
+            r = rng.random()
+            if r < 0.3:
+                ops.append('sat')
+            elif r < 0.55:
+                y = rng.choice(RT_SYMS + ['k', 'M', 'h'])
+                ops.append('str,%s,%s' % (('s:' + hs(y)) if y else 'f:' + (1.0).hex(), '-' if rng.random() < 0.8 else str(rng.randrange(0, 12))))
+            elif r < 0.65:
+                ops.append('bytes')
+            elif r < 0.85:
+                b = amount_str(safe_amount(rng) % (10 ** 11), rng.choice(['', 'm', 'sat', 'µ', 'c', 'k']),
+                               rng.choice(['BTC', 'BTC', 'BTC', 'LTC', '']), trim=True)
+                ops.append('%s,%s' % (rng.choice(['add', 'iadd', 'sub', 'isub', 'add', 'addk', 'subk', 'addk']), hs(b)))
+            elif r < 0.95:
+                ops.append('%s,%d' % (rng.choice(['mul', 'mul', 'mulk']), rng.choice([0, 1, 2, 3, 7, 10])))
+            else:
+                ops.append('%s,%d' % (rng.choice(['div', 'div', 'divk']), rng.choice([1, 2, 4, 5, 10, 0, 3])))
+        cs.append(Case('vobj', 'vobj %s %s' % (init, ' '.join(ops))))
+    return cs
+
+
+TX_NETS = ['bitcoin', 'litecoin', 'dogecoin', 'bitcoinlib_test', 'testnet']
+
+
+def _rel_value(rng, rem):
+    """a change value in a chosen relation to the amount still to be taken from the change outputs"""
+    m = rng.randrange(9)
+    if m == 0:
+        return max(1, rem - 1)
+    if m == 1:
+        return max(1, rem)
+    if m == 2:
+        return 2 * rem
+    if m == 3:
+        return 2 * rem + 1
+    if m == 4:
+        return max(1, rng.randrange(1, max(2, rem)))
+    if m == 5:
+        return rng.randrange(rem, 2 * rem + 1)
+    if m == 6:
+        return rng.randrange(2 * rem + 1, 20 * rem + 2)
+    if m == 7:
+        return max(1, rem // 2)
+    return rng.randrange(1, 3 * rem + 2)
+
+
+def gen_txs_sessions(rng, big, neg_ok, value_ok):
+    cs = []
+
+    def emit(net, wt, mode, ins, outs, ops):
+        cs.append(Case('txs', 'txs %s %s %s %s %s %s' % (
+            hs(net), wt, mode, ','.join(str(v) for v in ins), ','.join('%d:%d' % (v, 1 if c else 0) for v, c in outs),
+            ' '.join(ops))))
+
+    # the recorded shapes: two change outputs smaller / larger than the bump
+    emit('bitcoinlib_test', 'S', 'S', [200000], [(180000, False), (6000, True), (9000, True)], ['b,0,10000'])
+    emit('bitcoinlib_test', 'S', 'S', [200000], [(139000, False), (6000, True), (50000, True)], ['b,0,10000'])
+    emit('bitcoin', 'L', 'S', [200000], [(122500, False), (2500, True), (30000, True), (40000, True)], ['b,0,4000', 'b,0,400'])
+    # (1) fee bumps: 1..4 change outputs in every relation to the extra fee, explicit fee / extra_fee / default
+    for j in range(5000 if big else 420):
+        net, wt = TX_NETS[j % len(TX_NETS)], 'LS'[(j // 5) % 2]
+        mode = 'U' if j % 7 == 3 else 'S'
+        extra = rng.choice([rng.randrange(100, 400), rng.randrange(400, 5000), rng.randrange(5000, 10 ** 6)])
+        nch = rng.choice([1, 1, 2, 2, 2, 3, 3, 4])
+        rem, chg = extra, []
+        for _ in range(nch):
+            v = _rel_value(rng, max(rem, 1))
+            chg.append(v)
+            if v < rem:
+                rem -= v
+            else:
+                rem = max(1, extra // 3) if rng.random() < 0.3 else rem    # later outputs: still vary
+        pays = [rng.randrange(1, 10 ** rng.randrange(3, 10)) for _ in range(rng.randrange(1, 3))]
+        fee0 = rng.choice([rng.randrange(1, 300), rng.randrange(300, 50000)])
+        total = sum(chg) + sum(pays) + fee0
+        nin = rng.randrange(1, 4)
+        ins = [total // nin] * nin
+        ins[0] += total - sum(ins)
+        if min(ins) <= 0:
+            ins = [total]
+        outs = [(v, False) for v in pays] + [(v, True) for v in chg]
+        if rng.random() < 0.6:
+            rng.shuffle(outs)
+        r = rng.random()
+        if r < 0.55:
+            ops = ['b,0,%d' % extra]
+        elif r < 0.8:
+            ops = ['b,%d,0' % (fee0 + extra)]
+        elif r < 0.88:
+            ops = ['b,0,0']
+        elif r < 0.94:
+            ops = ['b,%d,%d' % (fee0 + extra, rng.randrange(1, 10 ** 5))]      # fee wins over extra_fee
+        else:
+            ops = ['b,%d,0' % rng.randrange(0, fee0 + 200), 'b,0,%d' % rng.randrange(1, 250)]     # below the minimum
+        if rng.random() < 0.35:
+            ops.append(rng.choice(['b,0,%d' % rng.choice([extra, extra // 2 + 200, 150, 2 * extra]), 'b,0,0', 'u', 's']))
+        emit(net, wt, mode, ins, outs, ops)
+    # (2) mixed sessions: add_output (int / float / text), update_totals, sign_and_update, estimates, bumps
+    for j in range(3000 if big else 260):
+        net, wt = TX_NETS[j % len(TX_NETS)], 'LS'[(j // 5) % 2]
+        mode = 'U' if j % 5 == 2 else 'S'
+        nin = rng.randrange(1, 4)
+        ins = [rng.choice([rng.randrange(10 ** 4, 10 ** 7), rng.randrange(10 ** 7, 10 ** 11),
+                           rng.randrange(10 ** 14, 7 * 10 ** 14)]) for _ in range(nin)]
+        tin = sum(ins)
+        budget = tin - rng.choice([rng.randrange(200, 5000), rng.randrange(5000, 10 ** 6)]) % (tin // 2)
+        outs = []
+        for _ in range(rng.randrange(1, 5)):
+            v = rng.randrange(1, max(2, budget // 2))
+            budget -= v
+            outs.append((v, rng.random() < 0.5))
+        room = tin - sum(v for v, _ in outs)          # what the fee can still absorb
+        ops = []
+        for _ in range(rng.randrange(1, 7)):
+            r = rng.random()
+            if r < 0.3:
+                v = rng.choice([0, 1, 546, 1000, rng.randrange(1, max(2, room // 3 + 1))])
+                if v >= room:
+                    v = 0
+                form = rng.randrange(6)
+                if form <= 2:
+                    tok = 'i:%d' % v
+                elif form == 3 and v < 2 ** 53:
+                    tok = 'f:%s' % float(v).hex()
+                elif form == 4:
+                    tok = 's:%s' % hs(rng.choice(['%d', ' %d ', '%d.0', '+%d']) % v)
+                else:
+                    tok = rng.choice(['f:%s' % (v + 0.5).hex(), 's:%s' % hs('%d sat' % v), 's:%s' % hs('1e3'), 'f:nan',
+                                      'i:%d' % v])
+                    if tok == 's:%s' % hs('1e3'):
+                        v = 0
+                if tok.startswith(('i:', 'f:0x')) or form == 4:
+                    room -= v if not tok.endswith(('.5p+0',)) else 0
+                ops.append('a,%s,%d' % (tok, rng.randrange(2)))
+            elif r < 0.5:
+                ex = rng.choice([rng.randrange(100, 600), rng.randrange(600, 10 ** 5)])
+                ops.append(rng.choice(['b,0,%d' % ex, 'b,0,0', 'b,%d,0' % rng.randrange(1, 10 ** 6)]))
+            elif r < 0.62:
+                ops.append('u')
+            elif r < 0.76:
+                ops.append('s')
+            elif r < 0.86:
+                ops.append('e,%d' % rng.randrange(0, 4))
+            else:
+                ops.append('c,%d' % rng.choice([0, 1, 999, 1000, 1001, 12345, 10 ** 6, 10 ** 6 + 1, 2 * 10 ** 6 + 1, 10 ** 9,
+                                                10 ** 10 + 7, rng.randrange(1, 10 ** 7)]))
+        emit(net, wt, mode, ins, outs, ops)
+    # (3) out-of-range values handed to add_output: refused by raw(), never serialised
+    for v in (-1, -5, 2 ** 63, 2 ** 64 - 1, 2 ** 64, 10 ** 30):
+        for tail in ([], ['s'], ['u'], ['b,0,500']):
+            if v > 0 and not neg_ok and (tail == ['u'] or (tail and v < 2 ** 64)):
+                continue                                  # the totals would turn negative: class fee_negative
+            emit('bitcoin', 'S', 'S', [10 ** 6], [(400000, False), (500000, True)], ['a,i:%d,0' % v] + tail)
+    # (4) outputs beyond the inputs (recorded class fee_negative)
+    if neg_ok:
+        for j in range(60 if big else 12):
+            tin = rng.randrange(10 ** 4, 10 ** 8)
+            o1 = rng.randrange(1, tin)
+            add = tin - o1 + rng.randrange(0, 10 ** 6)
+            emit(TX_NETS[j % 5], 'LS'[j % 2], 'S', [tin], [(o1, False)], ['a,i:%d,%d' % (add, j % 2)] + rng.choice([['u'], ['s'], ['u', 's'], ['s', 'b,0,300']]))
+    # (5) add_output(<Value object>) (recorded finding addoutput_value_units, or its repair)
+    if value_ok:
+        for j in range(400 if big else 60):
+            net = TX_NETS[j % 5]
+            code = {'bitcoin': 'BTC', 'litecoin': 'LTC', 'dogecoin': 'DOGE', 'bitcoinlib_test': 'TST', 'testnet': 'tBTC'}[net]
+            n = rng.choice([1, 100, 10 ** 8, 3 * 10 ** 8, 250000, 150000000, rng.randrange(1, 10 ** 10)])
+            sym = rng.choice(['', '', 'm', 'sat', 'µ', 'c', 'k'])
+            text = amount_str(n, sym, rng.choice([code, code, '']), trim=True)
+            if j % 10 == 9:
+                text = rng.choice(['0.5 sat', '1 LTC' if net != 'litecoin' else '1 BTC', '0.000000015 ' + code])
+            emit(net, 'LS'[j % 2], 'S', [3 * 10 ** 10], [(10 ** 9, False), (10 ** 10, True)], ['av,%s,%d' % (hs(text), j % 2), 's'])
+    return cs
+
+
+def gen_wtx_sessions(rng, big):
+    cs = []
+    for j in range(700 if big else 70):
+        wt = 'SL'[j % 2]
+        nut = rng.randrange(1, 4)
+        utxos = [rng.choice([rng.randrange(20000, 10 ** 6), rng.randrange(10 ** 6, 10 ** 9)]) for _ in range(nut)]
+        tot = sum(utxos)
+        fee = rng.choice([rng.randrange(200, 3000), rng.randrange(3000, 40000)])
+        npay = rng.randrange(1, 3)
+        m = rng.random()
+        spend = int(tot * rng.uniform(0.05, 0.6)) if m < 0.6 else (tot - fee - rng.randrange(0, 30000) if m < 0.9 else int(utxos[0] * 0.9))
+        spend = max(2000 * npay, spend)
+        pays = [spend // npay] * npay
+        pays[0] += spend - sum(pays)
+        k = rng.choice([1, 1, 2, 3, 4, 0])
+        feetok = str(fee) if rng.random() < 0.75 else 'N:%d' % rng.choice([1000, 5000, 20000, 100000])
+        if j % 4 == 1:
+            # the change left over cannot pay the bump: WalletTransaction.bumpfee has to add another wallet output
+            small = rng.choice([0, rng.randrange(1, 1000), rng.randrange(5000, 40000), rng.randrange(5000, 40000)])
+            wt = 'SL'[(j // 4) % 2]
+            a = rng.randrange(50000, 10 ** 7)
+            extra = small + rng.randrange(200, 20000)
+            b = rng.choice([extra, extra + 1, 2 * extra, 2 * extra + 1, extra + rng.randrange(0, 10 ** 6), max(1, extra - 1)])
+            utxos = [a, b] if rng.random() < 0.5 else [b, a]
+            pays = [a - fee - small]
+            cs.append(Case('wtx', 'wtx %s %s %s %d %d %d %s' % (wt, ','.join(map(str, utxos)), pays[0], fee, rng.choice([1, 1, 2]),
+                                                                 j % 3 == 0, rng.choice(['0,%d' % extra, '%d,0' % (fee + extra), '0,0']))))
+            continue
+        r = rng.random()
+        if r < 0.15:
+            bump = '-'
+        elif r < 0.3:
+            bump = '0,0'
+        elif r < 0.75:
+            bump = '0,%d' % rng.choice([rng.randrange(150, 1000), rng.randrange(1000, 60000)])
+        else:
+            bump = '%d,0' % (fee + rng.choice([rng.randrange(150, 1000), rng.randrange(1000, 60000)]))
+        cs.append(Case('wtx', 'wtx %s %s %s %s %d %d %s' % (wt, ','.join(map(str, utxos)), ','.join(map(str, pays)), feetok, k,
+                                                             j % 3 == 0, bump)))
+    return cs
+
+
+def gen_sessions(rng, big):
+    neg_ok = known_status('fee_negative') == 'known'
+    value_ok = known_status('addoutput_value_units') in ('known', 'fixed')
+    return gen_seq_sessions(rng, big) + gen_vobj_sessions(rng, big) + gen_txs_sessions(rng, big, neg_ok, value_ok) + \
+        gen_wtx_sessions(rng, big)
+
+
 def gen_cases(rng, tier):
     big = tier == 'thorough'
     cs = []
     add = cs.append
     add(Case('tables', 'tables'))
+    # sessions first: each runs in a forked child of the freshly started adapter, so that a replay of one session sees the
+    # same process state; their own random stream keeps the stateless streams below what they were
+    cs.extend(gen_sessions(__import__('random').Random(rng.getrandbits(64) ^ 0xC17), big))
     ams = amounts(rng, 60000 if big else 4000, big)
     syms = list(SYMS)
     nets_h = [hs(n) for n in NETS]
